@@ -289,9 +289,13 @@ V2("C03-prev-after-update", ["C03"], [
     dict(module="gmm", old="            logger.debug(f'log likelihood = {average_output}')\n            if step > 1:", new="            logger.debug(f'log likelihood = {average_output}')\n            average_output_previous = average_output\n            if step > 1:"),
   ], "previous criterion copied after the update: change is always 0")
 V("C03-unaveraged", ["C03", "C04"], "gmm", "average_output = float(statistics.log_likelihood / statistics.t)", "average_output = float(statistics.log_likelihood)", "stops on the total, not the average, log-likelihood")
-V("C03-criterion-first-block", ["C03", "C04"], "gmm",
-  "    statistics = functools.reduce(operator.iadd, statistics)\n    m_step_func(",
-  "    first = statistics[0]\n    first_ll, first_t = (first.log_likelihood, first.t)\n    statistics = functools.reduce(operator.iadd, statistics)\n    m_step_func(", "placeholder", kind="skip")
+V2("C03-criterion-first-block", ["C03", "C04"], [
+    dict(module="gmm", old="    statistics = functools.reduce(operator.iadd, statistics)\n    m_step_func(", new="    first = statistics[0]\n    first_ll, first_t = (first.log_likelihood, first.t)\n    statistics = functools.reduce(operator.iadd, statistics)\n    m_step_func("),
+    dict(module="gmm", old="average_output = float(statistics.log_likelihood / statistics.t)", new="average_output = float(first_ll / first_t)"),
+  ], "criterion taken from the first block only: chunk-dependent stopping")
+V("C03-weights-unnormalised", ["C03", "C13"], "gmm", "machine.weights = thresholded_n / statistics.t", "machine.weights = thresholded_n", "ML weights are raw counts (not on the simplex)")
+V("C03-means-not-divided", ["C03", "C15"], "gmm", "machine.means = statistics.sum_px / thresholded_n[:, None]", "machine.means = statistics.sum_px / statistics.t", "means divided by the sample count instead of the responsibilities")
+V("C03-variance-mean-unsquared", ["C03", "C15"], "gmm", "machine.variances = statistics.sum_pxx / thresholded_n[:, None] - np.power(machine.means, 2)", "machine.variances = statistics.sum_pxx / thresholded_n[:, None] - machine.means", "mean subtracted unsquared from E[x^2]")
 V("C03-switches-swapped", ["C03"], "gmm", "update_means=machine.update_means, update_variances=machine.update_variances", "update_means=machine.update_variances, update_variances=machine.update_means", "update switches crossed in the wrapper")
 V("C03-store-under-wrong-switch", ["C03"], "gmm",
   "    if update_means:\n        logger.debug('Update means.')\n        machine.means = statistics.sum_px / thresholded_n[:, None]\n    if update_variances:\n        logger.debug('Update variances.')\n        machine.variances =",
@@ -302,3 +306,47 @@ V("C03-post-loop-update", ["C03"], "gmm", "            logger.info('Reached maxi
 V("C03-for-range", ["C03"], "gmm", "placeholder-for-range", "", "for-range loop", kind="skip")
 V("C03-logging-moved", ["C03"], "gmm", "            logger.debug(f'log likelihood = {average_output}')\n            if step > 1:", "            if step > 1:", "a log line removed", kind="benign")
 V("C03-trainer-crossed", ["C03", "C05"], "gmm", "m_step_func = map_gmm_m_step if machine.trainer == 'map' else ml_gmm_m_step", "m_step_func = ml_gmm_m_step if machine.trainer == 'map' else map_gmm_m_step", "M-step functions crossed")
+
+# ----------------------------------------------------------------------------- C06 (k-means loop + criterion)
+KW = "        while self.max_iter is None or step < self.max_iter:"
+V("C06-criterion-block-mean", ["C06", "C04"], "kmeans", "average_min_distance = min_distance.sum()", "average_min_distance = min_distance.mean()", "revert of fix 389211a: block mean summed over blocks and divided by N")
+V("C06-criterion-weighted-late", ["C06", "C04"], "kmeans", "    average_min_distance /= n_samples\n", "    average_min_distance /= len(stats)\n", "criterion divided by the number of blocks")
+V("C06-criterion-not-normalised", ["C06", "C04"], "kmeans", "    average_min_distance /= n_samples\n", "", "criterion is the total, not the mean, squared distance")
+V("C06-nsamples-first-block", ["C06", "C04"], "kmeans", "        n_samples = len(X)\n        logger.debug('Transform X array to delayed list')\n        X = array_to_delayed_list(X, input_is_dask)", "        logger.debug('Transform X array to delayed list')\n        X = array_to_delayed_list(X, input_is_dask)\n        n_samples = len(X[0]) if input_is_dask else len(X)", "sample count taken from the first block after the split", may_be_undecided=True)
+V("C06-cap-le", ["C06"], "kmeans", KW, "        while self.max_iter is None or step <= self.max_iter:", "one iteration more than max_iter")
+V("C06-thr-lt", ["C06"], "kmeans", "convergence_value <= self.convergence_threshold", "convergence_value < self.convergence_threshold", "strict comparison")
+V("C06-guard-2", ["C06"], "kmeans", "            if step > 1:\n                convergence_value = abs((distance_previous", "            if step > 2:\n                convergence_value = abs((distance_previous", "test delayed to the third pass")
+V("C06-guard-dropped", ["C06"], "kmeans", "            if step > 1:\n                convergence_value = abs((distance_previous - distance) / distance_previous)\n                logger.debug(f'Convergence value = {convergence_value} and threshold is {self.convergence_threshold}')\n                if self.convergence_threshold is not None and convergence_value <= self.convergence_threshold:\n                    logger.info('Reached convergence threshold. Training stopped.')\n                    break",
+  "            convergence_value = abs((distance_previous - distance) / distance_previous)\n            logger.debug(f'Convergence value = {convergence_value} and threshold is {self.convergence_threshold}')\n            if self.convergence_threshold is not None and convergence_value <= self.convergence_threshold:\n                logger.info('Reached convergence threshold. Training stopped.')\n                break",
+  "no step guard: first comparison is against inf (nan <= thr is false): behaviour unchanged", kind="benign")
+V("C06-no-abs", ["C06"], "kmeans", "convergence_value = abs((distance_previous - distance) / distance_previous)", "convergence_value = (distance_previous - distance) / distance_previous", "signed change")
+V("C06-prev-dropped", ["C06"], "kmeans", "            distance_previous = distance\n", "", "previous criterion never updated (stays inf)")
+V("C06-argmin-axis", ["C06", "C20"], "kmeans", "return np.argmin(centroids_dist, axis=0)", "return np.argmin(centroids_dist, axis=1)", "argmin over the sample axis")
+V("C06-stale-centroids", ["C06"], "kmeans", "                stats = [e_step(X, means=self.centroids_)]", "                stats = [e_step(X, means=initial_centroids)]", "assignment against the initial centroids in the NumPy arm", may_be_undecided=True)
+V("C06-criterion-other-source", ["C06"], "kmeans", "            distance = self.average_min_distance\n", "            distance = float(np.mean(self.centroids_))\n", "convergence tested on something that is not the criterion")
+V("C06-mean-of-sums", ["C06", "C13"], "kmeans", "    means = first_order_statistics / zeroeth_order_statistics[:, None]", "    means = first_order_statistics / len(stats)", "centroid = sum / number of blocks")
+V("C06-sum-spelled", ["C06", "C04"], "kmeans", "average_min_distance = min_distance.sum()", "average_min_distance = np.sum(min_distance, axis=0)", "sum spelled with np.sum", kind="benign")
+
+# ----------------------------------------------------------------------------- C01
+V("C01-logweights-dropped", ["C01"], "gmm", "    log_weighted_likelihoods = machine.log_weights[:, None] + ll", "    log_weighted_likelihoods = ll", "mixture weights dropped from the weighted log-likelihood")
+V("C01-normaliser-dropped", ["C01", "C15"], "gmm", "    ll = -0.5 * (machine.g_norms[:, None] + z)", "    ll = -0.5 * z", "Gaussian normaliser dropped (density does not integrate to one)")
+V("C01-normaliser-not-halved", ["C01", "C15"], "gmm", "    ll = -0.5 * (machine.g_norms[:, None] + z)", "    ll = -0.5 * z - machine.g_norms[:, None]", "normaliser not halved")
+V("C01-variance-squared", ["C01", "C15"], "gmm", "temp = np.sum((data - machine.means[i]) ** 2 / machine.variances[i], axis=-1)", "temp = np.sum((data - machine.means[i]) ** 2 / machine.variances[i] ** 2, axis=-1)", "squared difference divided by the squared variance")
+V("C01-variance-sqrt", ["C01", "C15"], "gmm", "temp = np.sum((data - machine.means[i]) ** 2 / machine.variances[i], axis=-1)", "temp = np.sum((data - machine.means[i]) ** 2 / np.sqrt(machine.variances[i]), axis=-1)", "squared difference divided by the standard deviation")
+V("C01-log-pi", ["C01"], "gmm", "        n_log_2pi = self._variances.shape[-1] * np.log(2 * np.pi)\n        self._g_norms = n_log_2pi + np.log(self._variances).sum(axis=-1)\n\n    @property\n    def variance_thresholds", "        n_log_2pi = self._variances.shape[-1] * np.log(np.pi)\n        self._g_norms = n_log_2pi + np.log(self._variances).sum(axis=-1)\n\n    @property\n    def variance_thresholds", "log(pi) instead of log(2 pi) in the setter's normaliser")
+V("C01-lazy-log-pi", ["C01"], "gmm", "            n_log_2pi = self.variances.shape[-1] * np.log(2 * np.pi)", "            n_log_2pi = self.variances.shape[-1] * np.log(2 * np.e)", "wrong constant in the lazy getter only")
+V("C01-2pi-outside-log", ["C01"], "gmm", "            n_log_2pi = self.variances.shape[-1] * np.log(2 * np.pi)", "            n_log_2pi = self.variances.shape[-1] * 2 * np.pi", "2 pi outside the logarithm")
+V("C01-const-hardcoded", ["C01"], "gmm", "            n_log_2pi = self.variances.shape[-1] * np.log(2 * np.pi)", "            n_log_2pi = self.variances.shape[-1] * 1.8378770664093453", "hard-coded log(2 pi)", kind="benign")
+V("C01-2pi-inside-log-var", ["C01"], "gmm", SETTER_V, "        self._variances = np.maximum(self.variance_thresholds, variances)\n        self._g_norms = np.log(2 * np.pi * self._variances).sum(axis=-1)", "normaliser as sum(log(2 pi var))", kind="benign")
+V("C01-naive-logsumexp", ["C01"], "gmm", "        log_likelihood = logaddexp_reduce(log_weighted_likelihoods)\n    else:", "        log_likelihood = np.log(np.sum(np.exp(log_weighted_likelihoods), axis=0))\n    else:", "exp -> sum -> log in the NumPy arm: underflows in the tails")
+V("C01-maxshift-logsumexp", ["C01"], "gmm", "        log_likelihood = logaddexp_reduce(log_weighted_likelihoods)\n    else:", "        m = np.max(log_weighted_likelihoods, axis=0)\n        log_likelihood = m + np.log(np.sum(np.exp(log_weighted_likelihoods - m[None, :]), axis=0))\n    else:", "max-shifted log-sum-exp", kind="benign")
+V("C01-scipy-logsumexp", ["C01"], "gmm", "        log_likelihood = logaddexp_reduce(log_weighted_likelihoods)\n    else:", "        log_likelihood = scipy.special.logsumexp(log_weighted_likelihoods, axis=0)\n    else:", "scipy logsumexp", kind="benign", may_be_undecided=True)
+V("C01-dask-sum", ["C01", "C04"], "gmm", "chunk=logaddexp_reduce, aggregate=logaddexp_reduce", "chunk=logaddexp_reduce, aggregate=np.sum", "Dask arm aggregates the per-chunk log-sum-exps with a plain sum")
+V("C01-reduce-axis1", ["C01"], "gmm", "    return np.logaddexp.reduce(array, axis=axis, keepdims=keepdims, initial=-np.inf)", "    return np.logaddexp.reduce(array, axis=1, keepdims=keepdims, initial=-np.inf)", "log-sum-exp over the sample axis")
+V("C01-broadcast-lost", ["C01"], "gmm", "    ll = -0.5 * (machine.g_norms[:, None] + z)", "    ll = -0.5 * (machine.g_norms + z)", "normaliser broadcast along the sample axis: (C,)+(C,N)")
+V("C01-atleast2d-dropped", ["C01"], "gmm", "    data = np.atleast_2d(data)\n    log_weighted_likelihoods = log_weighted_likelihood(data=data, machine=machine)\n    ll_reduced", "    log_weighted_likelihoods = log_weighted_likelihood(data=data, machine=machine)\n    ll_reduced", "a single vector is no longer promoted to a batch of one")
+V("C01-vectorised", ["C01", "C15"], "gmm",
+  "    z = []\n    for i in range(n_gaussians):\n        temp = np.sum((data - machine.means[i]) ** 2 / machine.variances[i], axis=-1)\n        z.append(temp)\n    z = np.vstack(z)",
+  "    z = np.sum((data[None, :, :] - machine.means[:, None, :]) ** 2 / machine.variances[:, None, :], axis=-1)",
+  "quadratic form vectorised by broadcasting", kind="benign")
+V("C01-renamed", ["C01"], "gmm", "log_weighted_likelihoods = machine.log_weights[:, None] + ll\n    return log_weighted_likelihoods", "lwl = ll + machine.log_weights[:, None]\n    return lwl", "operands swapped, local renamed", kind="benign")
